@@ -29,9 +29,10 @@ VARIABLES st,      \* [Tasks -> [Types -> 0..] ]  current environment
           base,    \* [Tasks -> [st, on]] snapshot inherited at spawn (ghost, for LexicalLookup)
           pc,      \* [Tasks -> "unborn" | "gate" | "done"]
           grp,     \* [Tasks -> scope id the task was spawned into (0 = detached)]
+          caught,  \* [Tasks -> "none" | "E" | "BaseE"] what the task's innermost catch-all caught last
           nsid, nops, actor, obs
 
-vars == <<st, on, ms, tg, frames, base, pc, grp, nsid, nops, actor, obs>>
+vars == <<st, on, ms, tg, frames, base, pc, grp, caught, nsid, nops, actor, obs>>
 
 Pair == Types \X Vals
 (* what one block may supply: a sequence of (type, value); "full" = all sequences up to length 2,
@@ -72,18 +73,19 @@ Observe == obs' = [t \in Tasks |-> [pc |-> pc'[t],
                                                         ELSE EXPLICIT>>]
                                             ELSE [T \in Types |-> <<0, 0>>],
                                     ms |-> IF pc'[t] = "gate" THEN ms'[t] ELSE 0,
-                                    tg |-> IF pc'[t] = "gate" THEN tg'[t] ELSE 0]]
+                                    tg |-> IF pc'[t] = "gate" THEN tg'[t] ELSE 0,
+                                    exc |-> caught'[t]]]
 
 Init == /\ st = [t \in Tasks |-> Empty] /\ on = [t \in Tasks |-> FALSE]
         /\ ms = [t \in Tasks |-> 0] /\ tg = [t \in Tasks |-> 0]
         /\ frames = [t \in Tasks |-> <<>>]
         /\ base = [t \in Tasks |-> [st |-> Empty, on |-> FALSE]]
         /\ pc = [t \in Tasks |-> IF t = 1 THEN "gate" ELSE "unborn"]
-        /\ grp = [t \in Tasks |-> 0]
+        /\ grp = [t \in Tasks |-> 0] /\ caught = [t \in Tasks |-> "none"]
         /\ nsid = 0 /\ nops = 0 /\ actor = 1
         /\ obs = [t \in Tasks |-> [pc |-> IF t = 1 THEN "gate" ELSE "unborn",
                                    p |-> [T \in Types |-> IF t = 1 THEN <<NOCTX, NOCTX>> ELSE <<0, 0>>],
-                                   ms |-> 0, tg |-> 0]]
+                                   ms |-> 0, tg |-> 0, exc |-> "none"]]
 
 Op(t) == nops < MaxOps /\ nops' = nops + 1 /\ pc[t] = "gate" /\ actor' = t
 
@@ -101,7 +103,7 @@ Enter(t, kind, direct, disp) ==
      /\ ms' = [ms EXCEPT ![t] = IF kind = "update" THEN @ ELSE sid]
      /\ tg' = [tg EXCEPT ![t] = IF kind = "ascope" THEN sid ELSE @]
      /\ nsid' = IF kind = "update" THEN nsid ELSE nsid + 1
-  /\ UNCHANGED <<base, pc, grp>>
+  /\ UNCHANGED <<base, pc, grp, caught>>
   /\ Observe
 
 Live(s) == {u \in Tasks : grp[u] = s /\ pc[u] = "gate"}
@@ -116,6 +118,30 @@ Leave(t) ==
      /\ on' = [on EXCEPT ![t] = f.son]
      /\ ms' = [ms EXCEPT ![t] = f.sms] /\ tg' = [tg EXCEPT ![t] = f.stg]
      /\ frames' = [frames EXCEPT ![t] = SubSeq(@, 1, Len(@) - 1)]
+  /\ UNCHANGED <<base, pc, grp, caught, nsid>>
+  /\ Observe
+
+(* user code opens a catch-all (try / except BaseException) around what follows; the context is untouched *)
+Try(t) ==
+  /\ Op(t) /\ Len(frames[t]) < MaxDepth
+  /\ frames' = [frames EXCEPT ![t] = Append(@, [kind |-> "try", sup |-> <<>>, sst |-> st[t], son |-> on[t],
+                                                 sms |-> ms[t], stg |-> tg[t], sid |-> 0])]
+  /\ UNCHANGED <<st, on, ms, tg, base, pc, grp, caught, nsid>>
+  /\ Observe
+
+(* the body raises an Exception / a BaseException: every block up to the innermost catch-all is left by it - scopes,
+   updates, several at once - and the catch-all sees that very exception with the context it had when it was opened *)
+TryIdx(t) == CHOOSE i \in DOMAIN frames[t] : frames[t][i].kind = "try" /\ \A j \in DOMAIN frames[t] : frames[t][j].kind = "try" => j <= i
+Raise(t, o) ==
+  /\ Op(t) /\ \E i \in DOMAIN frames[t] : frames[t][i].kind = "try"
+  /\ LET i == TryIdx(t)
+         f == frames[t][i] IN
+     /\ \A j \in i..Len(frames[t]) : frames[t][j].kind = "ascope" => Live(frames[t][j].sid) = {}
+     /\ st' = [st EXCEPT ![t] = IF Bug = "no_restore" THEN @ ELSE f.sst]
+     /\ on' = [on EXCEPT ![t] = f.son]
+     /\ ms' = [ms EXCEPT ![t] = f.sms] /\ tg' = [tg EXCEPT ![t] = f.stg]
+     /\ frames' = [frames EXCEPT ![t] = SubSeq(@, 1, i - 1)]
+     /\ caught' = [caught EXCEPT ![t] = o]
   /\ UNCHANGED <<base, pc, grp, nsid>>
   /\ Observe
 
@@ -132,21 +158,21 @@ Start(t, u, how) ==
   /\ ms' = [ms EXCEPT ![u] = ms[t]] /\ tg' = [tg EXCEPT ![u] = IF Bug = "leak_group" THEN 0 ELSE tg[t]]
   /\ base' = [base EXCEPT ![u] = [st |-> st[t], on |-> on[t]]]
   /\ grp' = [grp EXCEPT ![u] = IF how = "spawn" THEN tg[t] ELSE 0]
-  /\ UNCHANGED <<frames, nsid>>
+  /\ UNCHANGED <<frames, caught, nsid>>
   /\ Observe
 
 (* a task with no open block ends *)
 End(t) ==
   /\ Op(t) /\ frames[t] = <<>> /\ t # 1
   /\ pc' = [pc EXCEPT ![t] = "done"]
-  /\ UNCHANGED <<st, on, ms, tg, frames, base, grp, nsid>>
+  /\ UNCHANGED <<st, on, ms, tg, frames, base, grp, caught, nsid>>
   /\ Observe
 
 Next == \E t \in Tasks :
           \/ \E kind \in {"ascope", "sscope", "update"}, sup \in Sups :
                  \E k \in (IF kind = "ascope" THEN 0..Len(sup) ELSE {Len(sup)}) :
                     Enter(t, kind, SubSeq(sup, 1, k), SubSeq(sup, k + 1, Len(sup)))
-          \/ Leave(t) \/ End(t)
+          \/ Leave(t) \/ End(t) \/ Try(t) \/ \E o \in {"E", "BaseE"} : Raise(t, o)
           \/ \E u \in Tasks, how \in {"spawn", "plain"} : Start(t, u, how)
 Spec == Init /\ [][Next]_vars
 
@@ -164,7 +190,7 @@ Lexical(fs, b, T) ==
 
 LexicalLookup ==
   \A t \in Tasks : pc[t] = "gate" =>
-     /\ on[t] = (frames[t] # <<>> \/ base[t].on)
+     /\ on[t] = ((\E i \in DOMAIN frames[t] : frames[t][i].kind # "try") \/ base[t].on)
      /\ \A T \in Types : st[t][T] = Lexical(frames[t], base[t], T)
 
 (* C03: scopes and updates entered by one task are never visible to any other task *)
@@ -173,7 +199,7 @@ Isolation == [][\A u \in Tasks : (u # actor' /\ pc[u] = "gate" /\ pc'[u] = "gate
 
 (* C02 (normal exit): leaving a block restores exactly the surrounding triple *)
 Restored == [][\A t \in Tasks : Len(frames'[t]) < Len(frames[t]) =>
-                  LET f == frames[t][Len(frames[t])] IN
+                  LET f == frames[t][Len(frames'[t]) + 1] IN      \* the outermost block that was left
                   st'[t] = f.sst /\ on'[t] = f.son /\ ms'[t] = f.sms /\ tg'[t] = f.stg]_vars
 
 (* the metrics scope / group a task sees is the innermost one of its own chain, else inherited *)
